@@ -43,6 +43,14 @@ CHECKS.update({
             "Bounded: for 14-term menu families (<=3 terms, incl. unsorted-factor, zero-column and multi-column terms) x intercept x rank mode x output: names = labels, term ranges contiguous/disjoint/ordered/covering, lookups by object / printed form / column name / variable agree with them, and spec.subset(S) regenerates the parent's columns for all numeric values.",
             "Mostly ground facts on realised specs; the solver's share is small here (evidence reports solver_queries). Known findings: printed-form lookups of terms whose factors are not sorted.",
             "DESIGN.md §3 C10"),
+    "C06": ("SR", "hybrid: null layouts / entry points / index kinds enumerated; a symbolic tag column flows through the real pipeline and row identity is a solver-confirmed term identity (QF_LRA); policy facts compared natively with the documented semantics",
+            "Bounded: over every NaN layout of two nullable columns on 3 (quick) / 4 (thorough) rows (plus None in a categorical) x 8 formulas x 3 policies x caller drop sets x 4 entry points x 4 index kinds x outputs x override: every output row of every part IS the expected input row for all tag values, pandas index is the positional sub-index, the caller's set ends as exactly the removed positions, raise/ignore behave as documented.",
+            "Mostly enumeration (evidence: enumerated dimensions >> symbolic inputs); nulls inside symbolic columns excluded; quick visits a seeded slice of the variant dimensions for every (layout, formula, policy) cell.",
+            "DESIGN.md §3 C06"),
+    "C07": ("SR", "hybrid SR: symbolic numeric columns (tag, a, b) + enumerated null layouts over the variables of different parts; per-part equalities as z3 term identities / QF_NRA queries",
+            "Bounded: for 12 structured specs (~, |, keyword and tuple nestings two deep, transform-sharing) x null layouts x index kinds x outputs: result and .model_spec have the formula's nested shape, all parts keep the same rows, each part equals for all values the separate build of its terms with the joint drop set, what its own spec regenerates, what the structured spec regenerates jointly, and replays its recorded state on a row subset.",
+            "4 rows; nesting <= 2; multistage formulas excluded.",
+            "DESIGN.md §3 C07"),
 })
 
 NOT_APPLICABLE = {
